@@ -119,7 +119,8 @@ func verifC10NativeRaces() {
 	verifReach("race-analysis-done")
 }
 
-func verifC20NativeSchedule(fail, single bool) {
+func verifC20NativeSchedule(fail bool, files int) {
+	single := files == 0 // Linter.Lint on bytes; files == 1: LintFiles on one path (the LintFile route)
 	tmp, err := os.MkdirTemp("", "verif-c20s-")
 	if err != nil {
 		panic(err)
@@ -161,8 +162,9 @@ func verifC20NativeSchedule(fail, single bool) {
 	}
 	ch := make(chan res, 1)
 	nfiles := 3
-	if single {
+	if single || files == 1 {
 		nfiles = 1
+		args = args[:1]
 	}
 	go func() {
 		if single {
